@@ -323,6 +323,27 @@ def k_rules(p: Project, rep: Report):
                         if not from_cache(src) or NET in src:
                             ret_ok = False
                             bad = f"returns a value derived from {sorted(s for s in src if not s.startswith(('const:', 'fn:')))}"
+    # ... and a fresh profile (status 0) returns what the server just sent, not the copy read from the cache before
+    fresh_ok, fresh_seen, fresh_bad = True, 0, ""
+    for q in paths:
+        if q.outcome != "return" or q.value is None:
+            continue
+        facts = simple_conds(q.conds)
+        for cw in q.conds:
+            for a, e0 in _atom_exprs(cw[0]):
+                e = value_on_path(q, cfg, e0, upto=cw.pos, depth=1) if "status.code" not in a else e0
+                if isinstance(e, ast.Compare) and isinstance(e.ops[0], ast.Eq) and "status.code" in text(e):
+                    sides = [e.left, e.comparators[0]]
+                    const = [s_ for s_ in sides if isinstance(s_, ast.Constant)]
+                    code = [s_ for s_ in sides if text(s_).endswith("status.code")]
+                    if const and code and const[0].value == 0 and facts.get(a) is True and NET in origins(q, cfg, code[0], cw.pos, params):
+                        fresh_seen += 1
+                        src = origins(q, cfg, q.value, len(q.nodes) - 1, params)
+                        if from_cache(src) or NET not in src:
+                            fresh_ok = False
+                            fresh_bad = f"returns a value derived from {sorted(s_ for s_ in src if not s_.startswith(('const:', 'fn:')))}"
+    if fresh_seen:
+        rep.check("K-R1", "request_profile:fresh-profile-returned", fresh_ok, "" if fresh_ok else f"when the server sends a new profile (status 0) the call still hands back the copy it had read from the cache ({fresh_bad}): the caller routes its next request by the superseded profile", loc(p, fn))
     if ret_seen:
         rep.check("K-R1", "request_profile:up-to-date-returns-cached", ret_ok, "" if ret_ok else f"when the server says the profile is up to date the cached copy is not what is returned ({bad})", loc(p, fn))
     else:
@@ -448,6 +469,18 @@ def k_rules(p: Project, rep: Report):
     for comp, attr in (("org", "self.org"), ("fid", "self.fid"), ("url", "self.url")):
         ok = attr in comps
         rep.check("K-R3", f"request_profile:cache-key({comp})", ok, f"the cache file name does not always depend on {attr} (components used unconditionally: {sorted(comps)}): two servers that differ only in {comp.upper()} share one cache entry, and a profile cached from one is used for the other" if not ok else "", loc(p, where))
+
+    # the identifying components reach the file name whole: no operation that cuts a name at its last dot
+    cutters = []
+    for ct, ce in cache_exprs.items():
+        for x in ast.walk(ce):
+            if isinstance(x, ast.Call) and isinstance(x.func, ast.Attribute) and x.func.attr in ("with_suffix", "with_stem") and any(a_ in text(x.func.value) for a_ in ("self.org", "self.fid", "self.url")):
+                cutters.append(text(x)[:70])
+            if isinstance(x, ast.Attribute) and x.attr in ("stem",) and any(a_ in text(x.value) for a_ in ("self.org", "self.fid", "self.url")):
+                cutters.append(text(x)[:70])
+            if isinstance(x, ast.Call) and text(x.func).endswith("splitext") and x.args and any(a_ in text(x.args[0]) for a_ in ("self.org", "self.fid", "self.url")):
+                cutters.append(text(x)[:70])
+    rep.check("K-R3", "request_profile:cache-key-components-whole", not cutters, f"{cutters[0] if cutters else ''} replaces everything after the LAST DOT of the name it is applied to: an ORG/FID containing a dot (firstbank.com-101) is cut short, so different servers share one cache entry" if cutters else "", loc(p, where))
 
     # ------------------------------------------------------------------ K-R4
     rep.rule("K-R4", "ask with the date you hold: the DTPROFUP passed to _request_profile is the one parsed from the cached profile when a cache file was read and None otherwise; _request_profile sends that date (1990-01-01 only when None)")
